@@ -51,7 +51,10 @@ type ScenarioResult struct {
 	Overloaded bool        `json:"overloaded"`
 }
 
-const liveCap = 10 * time.Second
+// liveCap is the liveness cap; after two hangs in one worker the remaining scenarios use a short cap
+// (the verdict is already decided; this only bounds the run time of a check on a broken tree).
+var liveCap = 10 * time.Second
+var hangsSeen int32
 
 type instInfo struct {
 	inst      int
@@ -500,6 +503,9 @@ loop:
 					default:
 						pend = append(pend, "Close")
 					}
+				}
+				if atomic.AddInt32(&hangsSeen, 1) >= 2 {
+					liveCap = 2 * time.Second
 				}
 				s.violation("hang:"+strings.Join(append(pend, "quiesce"), "+"),
 					fmt.Sprintf("connection did not become done within %v after all handlers were released, all async responses delivered and the peer answered/hung up; last state %s", liveCap, last))
